@@ -37,7 +37,7 @@ def run_rule(name: str, repo) -> RuleResult:
     r = RULES[name]
     res = RuleResult(rule=name, text=r["text"], min_instances=r["min_instances"])
     r["fn"](repo, res)
-    if len(res.instances) < res.min_instances:
+    if len(res.instances) < res.min_instances and not res.findings:
         raise AnalysisError(
             f"rule {name} matched {len(res.instances)} instances, fewer than the {res.min_instances} "
             "confirmed by hand: an anchor vanished (vacuous pass refused)"
